@@ -184,4 +184,16 @@ namespace Kitoken
 def isBoundary (text : Bytes) (i : Nat) : Bool :=
   i == 0 || i == text.length || (i < text.length && (text.getD i 0 &&& 0xC0) != 0x80)
 
+/-- Valid UTF-8 check (`core::str::from_utf8`): every lossy-decoded character is genuine. -/
+def validUtf8 (b : Bytes) : Bool :=
+  let rec go (fuel : Nat) (b : Bytes) : Bool :=
+    match fuel, b with
+    | _, [] => true
+    | 0, _ => false
+    | fuel + 1, x :: xs =>
+      match Utf8.decodeOne (x :: xs) with
+      | (some _, n) => go fuel ((x :: xs).drop n)
+      | (none, _) => false
+  go b.length b
+
 end Kitoken
